@@ -9,7 +9,7 @@ SJ_VERIFY_LOOP = {"secp256k1_surjectionproof_verify": {"for (i = 0; i < n_used_p
     "decreases": "n_used_pubkeys - i"}}}
 def _limbs(a, b, fes):
     return " && ".join("%s.%s.n[%d] == %s.%s.n[%d]" % (a, f, k, b, f, k) for f in fes for k in range(5)) + " && %s.infinity == %s.infinity" % (a, b)
-PK_WATCH = "(g_el_i < j ==> (g_aj_seen == 1 && g_aj_roff == g_el_i * 128 && " + _limbs("g_aj_a", "verif_sj_ea", "xyz") + " && " + _limbs("g_aj_b", "verif_sj_eb", "xy") + "))"
+PK_WATCH = "(g_el_i < j ==> (g_aj_seen == 1 && g_aj_roff == g_el_i * 128))"
 def pk_loop(ring):
     return {"secp256k1_surjection_compute_public_keys": {"for (i = 0; i < n_input_tags; i++)": {
         "assigns": "i, j, __CPROVER_object_whole(pubkeys), " + ("*ring_input_index, " if ring else "") + "g_aj_n, g_aj_roff, g_aj_a, g_aj_b, g_aj_seen",
@@ -41,17 +41,29 @@ UNITS = [
       note="serialize(parse(b)) == b for every accepted b of length <= 9000 (1070 s measured)"),
     U("C11.compute_pubkeys_noring", ["C11", "C07"], "harness/C11/pubkeys.c", "h_sjp_pubkeys", replace=["secp256k1_gej_add_ge_var"], assumed=["secp256k1_gej_add_ge_var"],
       loop_contracts=pk_loop(False), functions=["secp256k1_surjection_compute_public_keys", "secp256k1_generator_load", "secp256k1_ge_neg", "secp256k1_gej_set_ge"],
-      timeout=1800, min_obl=30, unwind=258, closed_by="loop contract over the n tags (engine-supplied, no /repo edit)",
+      timeout=3600, min_obl=30, unwind=258, tier="thorough", closed_by="loop contract over the n tags (engine-supplied, no /repo edit)",
       note="the verifier's call: ring_input_index = NULL"),
     U("C11.compute_pubkeys", ["C11", "C07"], "harness/C11/pubkeys.c", "h_sjp_pubkeys", replace=["secp256k1_gej_add_ge_var"], assumed=["secp256k1_gej_add_ge_var"], defs=["PK_RING"],
       loop_contracts=pk_loop(True), functions=["secp256k1_surjection_compute_public_keys", "secp256k1_generator_load", "secp256k1_ge_neg", "secp256k1_gej_set_ge"],
-      timeout=1800, min_obl=30, unwind=258,
+      timeout=3600, min_obl=30, unwind=258, tier="thorough",
       closed_by="loop contract over the n tags (engine-supplied, no /repo edit): ring position = prefix bit count (harness table), decreases clause; harness table loops unwound",
       note="every n <= 256, every padding-free bitmap; pubkeys is an exact-size heap object so any write beyond n_used is a bounds violation"),
     U("C11.genmessage", ["C11", "C07"], "harness/C11/genmessage.c", "h_sjp_genmessage", replace=HASH,
       loop_contracts=GM_LOOP, functions=["secp256k1_surjection_genmessage"], timeout=1800, min_obl=30, unwind=34,
       closed_by="loop contract over the n tags (engine-supplied, no /repo edit): stream length 33 i and the watched stream byte as invariant, decreases clause",
       note="every list length 0..256; stream-level hash contract (hash_log.h)"),
+    U("C11.generate_gate_b8", ["C11"], "harness/C11/generate.c", "h_sjp_generate", bounded="n_inputs<=8, n_tags<=12",
+      replace=[CB, "secp256k1_surjection_compute_public_keys", "secp256k1_surjection_genmessage", "secp256k1_surjection_genrand", "secp256k1_borromean_sign"],
+      assumed=["secp256k1_surjection_genrand", "secp256k1_borromean_sign"],
+      unwindset=["secp256k1_surjectionproof_generate.0:14", "secp256k1_surjectionproof_generate.1:10"],
+      functions=["secp256k1_surjectionproof_generate", "secp256k1_scalar_set_b32", "secp256k1_scalar_negate", "secp256k1_scalar_add", "secp256k1_scalar_get_b32", "secp256k1_memcmp_var"],
+      timeout=1800, min_obl=30, unwind=66, tier="thorough",
+      note="gates and wiring of proof generation with the tag scan and the scalar write-back loop unwound"),
+    U("C11.initialize_b", ["C11"], "harness/C11/initialize.c", "h_sjp_initialize", bounded="n_to_use<=2, iterations<=2, <=6 random draws",
+      replace=["secp256k1_surjectionproof_csprng_next"], assumed=["secp256k1_surjectionproof_csprng_next"],
+      functions=["secp256k1_surjectionproof_initialize", "secp256k1_surjectionproof_csprng_init", "secp256k1_memcmp_var"], timeout=1800, min_obl=30, unwind=258,
+      unwindset=["secp256k1_surjectionproof_initialize.0:8", "secp256k1_surjectionproof_initialize.1:8", "secp256k1_surjectionproof_initialize.2:8", "secp256k1_memcmp_var.0:34"],
+      note="postcondition of initialize under a bounded exploration of the sampler (partial correctness; the sampler is an oracle with result < rand_max)"),
     U("C11.verify_gate_b8", ["C11", "C07"], VER, "h_sjp_verify", replace=VER_REPL, assumed=["secp256k1_borromean_verify"], defs=["EL_BOUND=8"],
       functions=VER_FUNCS, timeout=900, min_obl=30, unwind=34, bounded="n_inputs<=8",
       note="scalar loop unwound for proofs over at most 8 inputs: concrete counterexample (ring position, bytes) when a gate is broken"),
